@@ -343,6 +343,9 @@ where
                 Ok(())
             }
             DataToken::SequenceEnd => {
+                // a pixel data header must not outlive its fragment sequence
+                // (sibling items following nested encapsulated pixel data)
+                self.last_de = None;
                 // only write if it's an unknown length sequence
                 if let Some(seq_start) = self.seq_tokens.pop() {
                     if seq_start.typ == SeqTokenType::Sequence && seq_start.len.is_undefined() {
